@@ -5,9 +5,8 @@
    No proofs in this file. *)
 From Coq Require Import NArith ZArith List Bool.
 Import ListNotations.
-Require Import PV.Annot.Routes.
+Require Import PV.Annot.Forms PV.Gen.Annot PV.Annot.Routes.
 
-Inductive pkind := PosOnly | PosOrKw | VarPos | KwOnly | VarKw.
 
 Record param := mkParam {
   p_name : N;
@@ -19,16 +18,9 @@ Record param := mkParam {
 
 Record sparam := mkSParam { s_name : N; s_kind : pkind; s_default : bool; s_type : tval }.
 
-Definition dict_c : N := 1001%N.
-Definition str_c : N := 1002%N.
 
-(* translate_vararg_type *)
-Definition wrap (k : pkind) (v : tval) : tval :=
-  match k with
-  | VarPos => TGeneric tuple_c [v]
-  | VarKw => TGeneric dict_c [TTyped str_c; v]
-  | _ => v
-  end.
+(* translate_vararg_type: generated *)
+Definition wrap := gen_wrap.
 
 (* compute_parameters: kind from the syntax; an unannotated parameter is
    Any (united with its default, which is Any again up to representation),
@@ -50,9 +42,8 @@ Definition is_posorkw (k : pkind) : bool := match k with PosOrKw => true | _ => 
 Definition make_posonly (s : sparam) : sparam := mkSParam (s_name s) PosOnly (s_default s) (s_type s).
 
 Definition rt_step (acc : list sparam) (p : param) : list sparam :=
-  if is_posorkw (p_kind p) && p_private p
-  then map make_posonly acc ++ [mkSParam (p_name p) PosOnly (p_default p) (rt_type p)]
-  else acc ++ [mkSParam (p_name p) (p_kind p) (p_default p) (rt_type p)].
+  let (k, everything_posonly) := rt_kind (p_kind p) (p_private p) in
+  (if everything_posonly then map make_posonly acc else acc) ++ [mkSParam (p_name p) k (p_default p) (rt_type p)].
 
 Definition sig_from_runtime (ps : list param) : list sparam := fold_left rt_step ps [].
 
@@ -66,5 +57,4 @@ Definition norm_sparam (s : sparam) : sparam :=
 Definition ret_from_def (r : option aexpr) : tval := match r with Some e => route_visitor e | None => TAny end.
 Definition ret_from_runtime (r : option aexpr) : tval := match r with Some e => route_runtime e | None => TAny end.
 
-Definition param_ok (p : param) : bool :=
-  negb (p_private p) && match p_annot p with Some e => routes_guard e | None => true end.
+Definition param_ok (p : param) : bool := negb (p_private p).
